@@ -118,3 +118,43 @@ class Monitor:
         if self.stack:
             self._bad("start-without-return-at-end-of-run", open=[n for _, n in self.stack][:6])
         return self.problems
+
+
+class DualMonitor:
+    """A profiler and a tracer installed at the same time (debugger/coverage + profiler); each stream must be balanced on its own."""
+    mode = "both"
+
+    def __init__(self, basename, spans, f19_funcs=()):
+        self.p = Monitor("profile", basename, spans, f19_funcs)
+        self.t = Monitor("trace", basename, spans, f19_funcs)
+
+    def install(self):
+        sys.setprofile(self.p.profile_cb)
+        sys.settrace(self.t.trace_cb)
+
+    def finish(self):
+        a = self.p.finish()
+        b = self.t.finish()
+        for x in a:
+            x["stream"] = "profile"
+        for x in b:
+            x["stream"] = "trace"
+        return a + b
+
+    @property
+    def events(self):
+        return self.p.events + self.t.events
+
+    @property
+    def line_events(self):
+        return self.t.line_events
+
+    @property
+    def known_f19(self):
+        return self.p.known_f19 + self.t.known_f19
+
+
+def make(mode, basename, spans, f19_funcs=()):
+    if mode == "both":
+        return DualMonitor(basename, spans, f19_funcs)
+    return Monitor(mode, basename, spans, f19_funcs)
